@@ -364,7 +364,8 @@ PROPS["C08"] = _tx("C08", ["C08_queue_initial", "C08_queue_invariant", "C08_requ
 
 PROPS["C01"] = _tx("C01", ["C01_staged_file_is_source", "C01_store_is_stage_step", "C01_delivered_file_is_staged_file",
                            "C01_complete_only_if_all_received", "C01_sender_emits_truthful_data", "C01_receiver_history",
-                           "C01_receiver_initial", "C01_receiver_step", "C01_sender_directives_truthful", "C01_system"],
+                           "C01_receiver_initial", "C01_receiver_step", "C01_sender_directives_truthful",
+                           "C01_sender_reports_what_it_was_told", "C01_system"],
                    ["recv", "send", "segments", "checksum"],
     "Proof. (receiver) an invariant of the receive-transaction model kept by EVERY operation on truthful inputs (file data "
     "carrying the source's bytes in any order, duplication, overlap, re-segmentation; the sender's Metadata; a NoError EOF "
@@ -374,11 +375,12 @@ PROPS["C01"] = _tx("C01", ["C01_staged_file_is_source", "C01_store_is_stage_step
     "contents and the null checksum are covered; (sender) every file data PDU is truthful (C07), every Metadata PDU is the "
     "sender's metadata, every EOF states its size, the file never changes; (composition) in the two-machine system "
     "Model/Link.v, after any script of link behaviour (deliver any PDU in flight, duplicate, drop, cut a direction), user "
-    "requests at either end and time, every PDU in flight towards the receiver is truthful and a receiver success claim "
-    "implies destination == source. Lock-step correspondence for both machines and for the pair (component link), plus "
+    "requests at either end and time, every PDU in flight towards the receiver is truthful, every Finished PDU in flight "
+    "that says Retained/Complete is backed by the delivered file, and a success claim of the RECEIVE transaction as well as a "
+    "success indication of the SEND transaction (which only repeats a Finished PDU it was handed) implies destination == source. Lock-step correspondence for both machines and for the pair (component link), plus "
     "oracles on the real code: a successful Finished indication at either end implies destination == source.",
-    " PARTIAL: (i) the sending entity's success indication is tied to the receiver's only through 'the sender reports what "
-    "the Finished PDU says' (sender model) - not a separate theorem; (ii) metadata with filestore requests is excluded from "
+    " PARTIAL: (i) the filestore of the system theorem is the flat instance (name -> content) of the abstract filestore of the "
+    "receiver theorem; (ii) metadata with filestore requests is excluded from "
     "the theorem (they may legitimately rename/delete the file); (iii) real task interleavings and the daemon's routing are "
     "outside the model; (iv) a receive transaction re-spawned by the daemon for stray PDUs after the original ended is C11.")
 
